@@ -480,3 +480,9 @@ package base
 //@   ensures[C08] t != nil && targetT != nil && targetT.tType == UNION && exists(i, 0 <= i && i < len(t.variants) && t.variants[i].tType == UNTYPED) ==> result
 //@   # against a definite type a union matches only through a variant that is untyped or has that type tag
 //@   ensures[C07] t != nil && targetT != nil && targetT.tType != UNION && result ==> exists(i, 0 <= i && i < len(t.variants) && (t.variants[i].tType == UNTYPED || t.variants[i].tType == targetT.tType))
+
+//@ # ---- C20: a class counts as defined only through an entry of exactly one of the frames asked for ----
+//@ # (the frames of the reference, their Builtin:: counterparts, and Builtin itself): a class that the
+//@ # configuration declares in some other frame never makes a name of the program "defined"
+//@ func ti/base.IsClassDefined
+//@   ensures[C20] !has(DefinedClassTable, mk("ti/base.DefinedClass", "Builtin", class)) && forallx(i, 0 <= i && i < len(frames) ==> !has(DefinedClassTable, mk("ti/base.DefinedClass", frames[i], class)) && !has(DefinedClassTable, mk("ti/base.DefinedClass", "Builtin::" + frames[i], class))) ==> !result
